@@ -130,6 +130,125 @@ def nq(tests, text):
     return False
 
 
+EMITTER = "saphyr::emitter::YamlEmitter"
+
+
+def _writes(f):
+    """per block: what the block's call writes to the output: ('nl',) for a constant piece ending in a line feed, ('indent',) for
+    write_indent, ('content', what) for anything else that produces output (constant pieces, formatted values, escape_str, emit_*)"""
+    out = {}
+    pending_const = {}
+    for bb, t, ck, fr in f.calls():
+        if ck is None:
+            continue
+        if ck == "std::fmt::Arguments::from_str":
+            c = op_const(t["args"][0])
+            if c is not None and "str" in c and not t["dest"]["p"]:
+                pending_const[t["dest"]["l"]] = c["str"]
+            continue
+        if ck in ("std::fmt::Write::write_fmt", "std::fmt::Write::write_str", "std::fmt::Write::write_char"):
+            lit = None
+            a = t["args"][1]
+            l = is_local(a)
+            if l is not None and l in pending_const:
+                lit = pending_const[l]
+            c = op_const(a)
+            if c is not None and "str" in c:
+                lit = c["str"]
+            if lit is not None and lit.endswith("\n"):
+                out[bb] = ("nl", lit)
+            elif lit == "":
+                continue
+            else:
+                out[bb] = ("content", repr(lit) if lit is not None else "formatted value")
+        elif ck == EMITTER + "::write_indent":
+            out[bb] = ("indent",)
+        elif ck.startswith(EMITTER + "::emit_") or ck == EM + "escape_str":
+            out[bb] = ("content", short(ck))
+    return out
+
+
+def _level_steps(f):
+    """per (block, stmt index): +1 / -1 / ('set', expr) for assignments to self.level"""
+    out = {}
+    for w in cfg.field_writes(f, EMITTER, "level"):
+        if w["kind"] != "assign":
+            out[(w["bb"], w.get("idx", 0))] = ("set", "borrowed")
+            continue
+        st = w["stmt"]
+        e = cfg.expr_operand(f, st["rv"]["a"], 6) if st["rv"]["k"] == "use" else ("?",)
+        step = None
+        if e[0] == "place" and e[2] == [("field", "0")] and e[1][0] == "bin" and e[1][1] in ("AddWithOverflow", "SubWithOverflow") \
+                and cfg.expr_fields(e[1][2]) == ["level"] and e[1][3][0] == "const" and isinstance(e[1][3][1], int):
+            step = e[1][3][1] if e[1][1].startswith("Add") else -e[1][3][1]
+        out[(w["bb"], w["idx"])] = step if step is not None else ("set", cfg.expr_str(e)[:60])
+    return out
+
+
+def emitter_layout(rep, F):
+    """(d) nesting-level balance: along every path on which a function of the emitter returns without an error, the increments and
+    decrements of `level` cancel (a collection's siblings are indented alike); only dump() assigns level outright.
+    (e) after a line feed the next thing written is the indentation: no content, and no nested emit call, directly follows a newline
+    (except in dump(), whose root node starts at column 0)."""
+    n = 0
+    for k, f in sorted(F.fns.items()):
+        if f.d.get("impl_adt") != EMITTER or f.kind != "AssocFn":
+            continue
+        steps = _level_steps(f)
+        wr = _writes(f)
+        if not steps and not wr:
+            continue
+        n += 1
+        by_bb = {}
+        for (bb, si), v in steps.items():
+            by_bb.setdefault(bb, []).append((si, v))
+        resid = {bb for bb, t, ck, fr in f.calls() if ck and ck.endswith("::from_residual")} | set(cfg.err_sink_blocks(f))
+        bad_level, bad_nl = None, None
+        seen = {}
+        stack = [(0, 0, "content", (0,))]
+        while stack:
+            bb, d, st, path = stack.pop()
+            if (bb, d, st) in seen:
+                continue
+            seen[(bb, d, st)] = path
+            if bb in resid or f.blocks[bb]["cleanup"]:
+                continue
+            for si, v in sorted(by_bb.get(bb, [])):
+                if isinstance(v, tuple):
+                    if f.name != "dump":
+                        bad_level = bad_level or ("level assigned %s" % v[1], path)
+                    d = 0
+                else:
+                    d += v
+            if abs(d) > 6:
+                bad_level = bad_level or ("level changes by more than 6 along a path (a loop body does not restore it)", path)
+                continue
+            w = wr.get(bb)
+            if w is not None:
+                if w[0] == "nl":
+                    st = "newline"
+                elif w[0] == "indent":
+                    st = "content"
+                elif st == "newline" and f.name != "dump":
+                    bad_nl = bad_nl or ("%s is written directly after a line feed" % w[1], path)
+                else:
+                    st = "content"
+            t = f.blocks[bb]["term"]
+            if t["k"] == "return":
+                if d != 0 and f.name != "dump":
+                    bad_level = bad_level or ("returns Ok with level changed by %+d" % d, path)
+                continue
+            for sx in f.succs(bb):
+                stack.append((sx, d, st, path + (sx,) if len(path) < 60 else path))
+        rep.check(bad_level is None, "level-balance", short(k), "the nesting level is not restored on a successful return: following siblings are emitted at the "
+                  "wrong indentation and reload into a different tree" + (": " + bad_level[0] if bad_level else ""), site=f.span,
+                  detail={"path": list(bad_level[1]) if bad_level else None})
+        rep.check(bad_nl is None, "newline-then-indent", short(k), "content follows a line feed without the indentation being written first: a nested node "
+                  "restarts at column 0 and reloads at the wrong depth" + (": " + bad_nl[0] if bad_nl else ""), site=f.span,
+                  detail={"path": list(bad_nl[1]) if bad_nl else None})
+    rep.floor("emitter functions with layout obligations", n, 6)
+
+
 def run(tier):
     rep = new_report(tier)
     F = facts.load()
@@ -197,6 +316,7 @@ def run(tier):
         rep.check(p in tests["parsers"], "quotes-mirror-parser", p, "the resolver uses str::parse::<%s> but need_quotes does not" % p, site=nf.span)
     rep.floor("std parsers used by the resolver", len(rparsers), 2)
 
+    emitter_layout(rep, F)
     # (c) float spelling
     en = F.fn(EM + "YamlEmitter::emit_node")
     sc = F.adt(C08.SC)
